@@ -9,10 +9,11 @@ import (
 type c12Oracle struct {
 	lastSubmittedTOTP map[string]string // pid -> TOTP code of the immediately preceding submission for it
 	lastAccepted      map[string]bool   // pid -> whether that preceding submission was accepted
+	lastWasEnrol      map[string]bool   // pid -> that submission was the enrolment confirmation
 }
 
 func newC12Oracle(w *World) Oracle {
-	return &c12Oracle{lastSubmittedTOTP: map[string]string{}, lastAccepted: map[string]bool{}}
+	return &c12Oracle{lastSubmittedTOTP: map[string]string{}, lastAccepted: map[string]bool{}, lastWasEnrol: map[string]bool{}}
 }
 
 func countCSV(s string) int {
@@ -144,18 +145,49 @@ func (c *c12Oracle) Check(w *World, o *Obs) []Violation {
 			}
 		}
 		if st.Kind == "totp_validate" && before.TOTPSecretKey != "" {
+			// the code is its digits: white space around them does not make
+			// it another code
+			digits := strings.TrimSpace(code.Value)
 			prev, had := c.lastSubmittedTOTP[pid]
-			if accepted && w.Cfg.TOTPOneTime && had && prev == code.Value && c.lastAccepted[pid] {
+			if accepted && w.Cfg.TOTPOneTime && had && prev == digits && c.lastAccepted[pid] {
+				how := "verbatim"
+				if digits != code.Value {
+					how = "whitespace"
+				}
+				if c.lastWasEnrol[pid] {
+					how += "_after_enrolment"
+				}
 				out = append(out, viol("C12", "totp_repeat", st.Kind, o,
-					fmt.Sprintf("TOTP code %s accepted for %s on two consecutive submissions with replay protection enabled", code.Value, pid)))
+					fmt.Sprintf("TOTP code %q accepted for %s on two consecutive submissions with replay protection enabled", code.Value, pid), "how", how))
 			}
 			if accepted {
 				w.Stats.Reach["c12_totp_accepted"]++
-			} else if had && prev == code.Value && w.Cfg.TOTPOneTime && c.lastAccepted[pid] {
+			} else if had && prev == digits && w.Cfg.TOTPOneTime && c.lastAccepted[pid] {
 				w.Stats.Reach["c12_totp_repeat_rejected"]++
+				if digits != code.Value {
+					w.Stats.Reach["c12_totp_whitespace_repeat_rejected"]++
+				}
+				if c.lastWasEnrol[pid] {
+					w.Stats.Reach["c12_totp_enrol_code_repeat_rejected"]++
+				}
 			}
-			c.lastSubmittedTOTP[pid] = code.Value
+			c.lastSubmittedTOTP[pid] = digits
 			c.lastAccepted[pid] = accepted
+			c.lastWasEnrol[pid] = false
+		}
+	case "totp_confirm":
+		// the code that proved the new secret at enrolment is the account's
+		// last accepted code
+		pid := o.uidBefore()
+		before, after := o.RowsBefore[pid], o.RowsAfter[pid]
+		code := o.presented("code")
+		if pid == "" || before == nil || after == nil || code == nil {
+			break
+		}
+		if before.TOTPSecretKey != after.TOTPSecretKey && after.TOTPSecretKey != "" {
+			c.lastSubmittedTOTP[pid] = strings.TrimSpace(code.Value)
+			c.lastAccepted[pid] = true
+			c.lastWasEnrol[pid] = true
 		}
 	}
 	return out
